@@ -36,6 +36,9 @@ class Walker:
         self.cells = cfg.get('cells', {})          # source text -> name
         self.calls = cfg.get('calls', {})          # func source text -> name
         self.withs = cfg.get('withs', {})          # func text -> (enter, exit)
+        # func text -> (argument source text, name if the single argument is
+        # exactly that, name otherwise)
+        self.calls_by_arg = cfg.get('calls_by_arg', {})
         self.out = []
 
     def emit(self, *ev):
@@ -61,7 +64,8 @@ class Walker:
             # method call on a shared cell, e.g. db.get('0') / db.pop(...)
             if isinstance(e.func, ast.Attribute):
                 owner = _txt(e.func.value)
-                if owner in self.cells and f not in self.calls:
+                if owner in self.cells and f not in self.calls \
+                        and f not in self.calls_by_arg:
                     for a in e.args:
                         self.expr(a)
                     for k in e.keywords:
@@ -71,6 +75,11 @@ class Walker:
                                   'append', 'add', 'put', 'put_nowait')
                     self.emit('Wr' if wr else 'Rd', self.cells[owner])
                     return
+            if f in self.calls_by_arg and len(e.args) == 1 \
+                    and not e.keywords:
+                want, yes, no = self.calls_by_arg[f]
+                self.emit('Call', yes if _txt(e.args[0]) == want else no)
+                return
             if f in self.calls:
                 if isinstance(e.func, ast.Attribute):
                     self.expr(e.func.value) if _txt(e.func.value) \
@@ -370,17 +379,20 @@ CONFIG = [
                 'seq_def.stop': 'def_stop'},
       'cells': {'seq_def.started': 'started', 'seq_def.s_end': 's_end',
                 'seq_def.s_body': 's_body',
-                'seq_def.current_section_id': 'section_id'}}),
+                'seq_def.current_section_id': 'section_id',
+                'ret': 'ret'}}),
     ('process_sequence_results', 'searchkit/task.py',
      'SearchTask._process_sequence_results',
      {'locks': {},
-      'calls': {'seq_def.s_end.run': 'end_run_empty',
-                'sequence_results.add': 'results_add',
+      'calls': {'sequence_results.add': 'results_add',
                 'self.results_buffer.append': 'buffer_append',
                 'self._flush_results_buffer': 'flush'},
+      # the end pattern must be tried on the EMPTY string
+      'calls_by_arg': {'seq_def.s_end.run': ("''", 'end_run_empty',
+                                             'end_run_other')},
       'cells': {'seq_def.started': 'started', 'seq_def.s_end': 's_end',
                 'seq_def.current_section_id': 'section_id',
-                'filter_section_id': 'filter'}}),
+                'filter_section_id': 'filter', 'ret': 'ret'}}),
     ('searchdef_run', 'searchkit/searchdef.py', 'SearchDef.run',
      {'locks': {},
       'calls': {'self.hint.search': 'hint_search',
